@@ -396,6 +396,7 @@ def same_partition(keyf, canonf, domain):
 
 def run(ctx, rep):
     prog = ctx.prog
+    wiring_rule(ctx, rep, "C09")
     _PROG[0] = prog
     rep.rule("C09.a", "each period predicate induces exactly the documented partition of time (exhaustive over the Gregorian cycle x minutes)")
     rep.rule("C09.b", "keep_checks rows pair predicate, counter and within field of one period; every keep option is wired and validated")
@@ -514,6 +515,31 @@ def run(ctx, rep):
                   what="the keep counter is decremented whenever a period's newest snapshot is counted, independently of the keep-within test" if not bad else
                        "the keep counter is only decremented depending on the keep-within test: 'last N / newest N periods' would no longer be counted from the newest snapshot")
     rep.count("C09.a: days enumerated", len(days()))
+    # ---- C09.f: periods are those of the snapshot's own recorded local time ---------------------------------------
+    rep.rule("C09.f", "a time stamp stored with a numeric offset is read back in that offset (civil date/time as recorded), not converted to a default zone")
+    PARSE = prog.find1(r"^rustic_core::repofile::RusticTime::parse$")
+    fam_p = [PARSE] + prog.closures_of(PARSE)
+    fixed_used = False
+    via_instant = []
+    for f_ in fam_p:
+        for bb_, t_ in f_.calls():
+            if "callee" not in t_:
+                continue
+            c_ = callee(t_)
+            if c_.endswith("jiff::tz::TimeZone::fixed"):
+                src = flow.backward_slice(f_, op_place(t_["args"][0]))["calls"] if op_place(t_["args"][0]) else set()
+                fixed_used = fixed_used or any(x.endswith("to_numeric_offset") for x in src)
+            for a_ in t_["args"]:
+                if a_[0] == "k" and "fn" in a_[1]:
+                    pth = (a_[1]["fn"].get("resolved") or {}).get("path") or a_[1]["fn"]["callee"]
+                    if pth.endswith("jiff::tz::TimeZone::fixed"):
+                        recv = flow.backward_slice(f_, op_place(t_["args"][0]))["calls"] if op_place(t_["args"][0]) else set()
+                        fixed_used = fixed_used or any(x.endswith("to_numeric_offset") for x in recv)
+            if re.search(r"jiff::tz::Offset::to_timestamp$|jiff::Timestamp::to_zoned$", c_):
+                via_instant.append(where(f_, bb_))
+    okz = fixed_used and not via_instant
+    rep.check("C09.f", "offset-kept-as-zone", okz, where=PARSE.loc(), what="RusticTime::parse turns a numeric offset into a fixed-offset time zone of the resulting Zoned" if okz else
+              f"RusticTime::parse does not keep a stored numeric offset as the time zone (TimeZone::fixed on the offset: {fixed_used}; conversion through the instant at {via_instant}): day/week/... periods are computed in another zone than the one recorded")
     # ---- C09.e: the counter protocol -----------------------------------------------------------------------------
     rep.rule("C09.e", "counter protocol: a period counts iff its counter is non-zero; positive counters are decremented by exactly one; `last` follows every snapshot")
 
